@@ -368,14 +368,14 @@ class Interp:
                 elif p in kwargs:
                     loc[p] = kwargs[p]
                 elif i >= dstart:
-                    loc[p] = self.eval(defaults[i - dstart], Env(f.mod, {}, f))
+                    loc[p] = self._default(f, defaults[i - dstart])
                 else:
                     raise PyExc("TypeError", f"missing argument {p} for {f.short}")
             for a, d in zip(fn.args.kwonlyargs, fn.args.kw_defaults):
                 if a.arg in kwargs:
                     loc[a.arg] = kwargs[a.arg]
                 elif d is not None:
-                    loc[a.arg] = self.eval(d, Env(f.mod, {}, f))
+                    loc[a.arg] = self._default(f, d)
             if fn.args.vararg:
                 loc[fn.args.vararg.arg] = tuple(args[len(params):])
             if fn.args.kwarg:
@@ -397,6 +397,13 @@ class Interp:
             return None
         finally:
             self.depth -= 1
+
+    def _default(self, f: Func, d: ast.expr) -> Any:
+        """Default values are created once per function (when it is defined), not per call: a mutable default is shared by all calls."""
+        c = self.__dict__.setdefault("_default_cache", {})
+        if id(d) not in c:
+            c[id(d)] = self.eval(d, Env(f.mod, {}, f))
+        return c[id(d)]
 
     def _is_generator(self, fn: ast.FunctionDef) -> bool:
         c = self.__dict__.setdefault("_gen_cache", {})
@@ -1166,6 +1173,20 @@ class Interp:
         return a is b
 
     def equal(self, a: Any, b: Any) -> bool:
+        # containers compare element-wise with the elements' own notion of equality (as in the language)
+        if isinstance(a, (list, tuple)) and isinstance(b, (list, tuple)):
+            if isinstance(a, tuple) != isinstance(b, tuple) or len(a) != len(b):
+                return False
+            return all(x is y or self.equal(x, y) for x, y in zip(a, b))
+        if isinstance(a, dict) and isinstance(b, dict):
+            if len(a) != len(b):
+                return False
+            for k, v in a.items():
+                if k not in b:
+                    return False
+                if not (v is b[k] or self.equal(v, b[k])):
+                    return False
+            return True
         if isinstance(a, AObj) and isinstance(b, AObj):
             m = self.repo.find_method(a.cls, "__eq__")
             if m is not None:
